@@ -542,6 +542,13 @@ def token_display(ctx, prog):
     sites = {}
     for vi, v in enumerate(ad['variants']):
         name = v['name']
+        if name == 'Bytes':
+            # byte strings: rendered for 0..4 symbolic bytes whatever the loop looks like; the one-iteration (inductive) form
+            # is checked below in addition when the function still has the countdown loop itself
+            got_b = bytes_bounded(ctx, prog, inst, ov, where)
+            if got_b is not None:
+                seen += 1
+            continue
         m = Machine(prog, prims=prims.P, overrides=ov, max_configs=2000, max_steps=100000)
         m.cuts = set(heads)
         st = State()
@@ -595,7 +602,8 @@ def token_display(ctx, prog):
         elif 'slice::Iter' in tys and 'iter' not in names:
             names['iter'] = l
     if len(heads) != 1 or 'i' not in names:
-        ctx.fail_closed('TOKEN-FMT.bytes', 'the hex loop of Token::Bytes (one loop, counter `i`) is no longer recognisable: heads %s' % (heads,))
+        # the loop was restructured (moved into a helper, written with split_last, ...): the bounded form above stands alone
+        ctx.notes.append('TOKEN-FMT.bytes: countdown loop not found in Token::fmt itself; byte strings checked in bounded form (0..4 bytes) only')
         return sites
     head = heads[0]
     m = Machine(prog, prims=prims.P, overrides=dict(ov, **bytes_iter_prims()), max_configs=2000, max_steps=100000)
@@ -654,6 +662,94 @@ def bytes_iter_prims():
     return {'<std::slice::Iter<\'a, T> as std::iter::Iterator>::next': nxt}
 
 
+def concrete_slice_prims():
+    """iteration over a slice of a *known* length (bounded rendering of byte strings): the iterator carries its index"""
+    IT = 'mcv::SliceIter'
+
+    def elem(st, nm, k):
+        key = ('obj', 'elem', nm, k)
+        st.mem[key] = Atom('%s[%d]' % (nm, k), {'s': 'u8', 'k': 'int:u8'})
+        return Ref(key, ())
+
+    def as_slice(m, st, v):
+        if isinstance(v, Ref):
+            v = m.read_path(st, v.key, v.path)
+        if isinstance(v, Slice) and isinstance(v.len, Int) and v.len.is_const():
+            return v
+        return None
+
+    def into_iter(m, cfg, f, args, t):
+        s_ = as_slice(m, cfg.st, args[0])
+        if s_ is None:
+            return NotImplemented
+        return Adt(IT, 0, [Atom(str(s_.data)), Int.const(0), s_.len])
+
+    def nxt(m, cfg, f, args, t):
+        r = args[0]
+        it = m.read_path(cfg.st, r.key, r.path) if isinstance(r, Ref) else None
+        if not (isinstance(it, Adt) and it.adt == IT):
+            return NotImplemented
+        nm, i, n = it.fields
+        if i.c < n.c:
+            m.write_path(cfg.st, r.key, r.path, Adt(IT, 0, [nm, Int.const(i.c + 1), n]))
+            return some(elem(cfg.st, nm.name, i.c))
+        return NONE
+
+    def split_last(m, cfg, f, args, t):
+        s_ = as_slice(m, cfg.st, args[0])
+        if s_ is None:
+            return NotImplemented
+        n = s_.len.c
+        if n == 0:
+            return NONE
+        from ..absint import Tup
+        return some(Tup([elem(cfg.st, str(s_.data), n - 1), Slice(None, s_.data, Int.const(n - 1))]))
+
+    def split_first(m, cfg, f, args, t):
+        return NotImplemented
+
+    return {"std::slice::iter::<impl std::iter::IntoIterator for &'a [T]>::into_iter": into_iter,
+            'std::slice::<impl [T]>::iter': into_iter,
+            "<std::slice::Iter<'a, T> as std::iter::Iterator>::next": nxt,
+            'std::slice::<impl [T]>::split_last': split_last}
+
+
+def bytes_bounded(ctx, prog, inst, ov, where):
+    """TOKEN-FMT.bytes (bounded form, independent of how the loop is written): Token::Bytes of 0..4 symbolic bytes renders as
+    h' + two lower-case hex digits per byte separated by single spaces + '"""
+    ad = prog.adts[TOKEN]
+    vi = [i for i, v in enumerate(ad['variants']) if v['name'] == 'Bytes'][0]
+    okn = 0
+    for n in range(0, 5):
+        m = Machine(prog, prims=prims.P, overrides=dict(ov, **concrete_slice_prims()), max_configs=2000, max_steps=200000)
+        st = State()
+        st.mem[('obj', 'tok')] = Adt(TOKEN, vi, [Slice(None, 'b', Int.const(n))])
+        st.mem[('obj', 'f')] = Atom('formatter')
+        try:
+            outs = m.run(inst, [Ref(('obj', 'tok'), ()), Ref(('obj', 'f'), (), True)], st)
+        except Abort as e:
+            ctx.fail_closed('TOKEN-FMT.bytes', 'Token::Bytes of %d byte(s) cannot be interpreted: %s' % (n, e))
+            return None
+        oks = [o for o in outs if o.kind == 'return' and l1.result_kind(o.value) == 'Ok']
+        want_txt = "h'" + ' '.join('{:02x}' for _ in range(n)) + "'"
+        want_args = ['b[%d]' % k for k in range(n)]
+        if len(oks) != 1:
+            ctx.violation('TOKEN-FMT.bytes', 'len=%d|paths' % n, 'rendering a %d-byte string has %d successful paths (the bytes influence control flow?)' % (n, len(oks)), where)
+            continue
+        pieces = [e[1] for e in oks[0].st.events if e[0] == 'OUT']
+        got = ''.join(p[1] for p in pieces)
+        args_ = [p[2] for p in pieces if p[0] == 'arg']
+        if got != want_txt or not all(w in a for w, a in zip(want_args, args_)) or len(args_) != n:
+            ctx.violation('TOKEN-FMT.bytes', 'len=%d' % n, 'a %d-byte string is rendered as %r with arguments %s; the documented notation is %r with the bytes in order' % (n, got, args_, want_txt), where)
+        else:
+            okn += 1
+            ctx.ok('TOKEN-FMT.bytes', 'len=%d' % n)
+        for site, rec in m.assert_sites.items():
+            if rec['open'] or rec['fail']:
+                ctx.violation('TOKEN-FMT.bytes', 'len=%d|panic|%s' % (n, rec['kind']), 'rendering a %d-byte string can panic (%s)' % (n, rec['kind']), mir.loc(rec.get('sp')) or where)
+    return okn
+
+
 def merge_sites(sites, m):
     for site, rec in m.assert_sites.items():
         r = sites.setdefault((rec['path'], site[1]), {'ok': 0, 'open': 0, 'fail': 0})
@@ -697,10 +793,14 @@ def progress(ctx, prog):
     if inner is None:
         ctx.fail_closed('PROGRESS', 'inner loop head (stack.pop()) not found')
         return {}
+    # the control element type is the element type of the stack (a function-local enum, whatever it is called)
+    E_ADT = names.get('_elem_ty') or globals()['E_ADT']
     ad = prog.adts.get(E_ADT)
     if ad is None:
-        ctx.fail_closed('PROGRESS', 'control element type E not found')
+        ctx.fail_closed('PROGRESS', 'control element type (%s) not found' % E_ADT)
         return {}
+    plain = [i_ for i_, v_ in enumerate(ad['variants']) if not v_['tys']]
+    below = plain[0] if plain else 0
     tad = prog.adts[TOKEN]
     sites = {}
     ov = dict(display_prims())
@@ -716,9 +816,10 @@ def progress(ctx, prog):
     n = 0
     for vi, v in enumerate(ad['variants']):
         sub = [('', None)]
-        if v['name'] in ('A', 'M'):
+        vty = (v['tys'][0] if v['tys'] else '').replace(' ', '')
+        if 'Option<u64>' in vty:          # a countdown of a definite container / None for an indefinite one
             sub = [('None', NONE), ('Some(0)', some(Int.const(0))), ('Some(1)', some(Int.const(1))), ('Some(n>=2)', some(Int.sym('cnt')))]
-        elif v['name'] in ('S', 'X'):
+        elif 'str' in vty:                  # a string constant to show
             sub = [('s', Atom('stack-string', ty_from_str("&'static str")))]
         for sname, sval in sub:
             # enumerate (next token, token after it) classes lazily: run with a two-token symbolic script per class pair
@@ -740,7 +841,7 @@ def progress(ctx, prog):
                     st.ranges['tok2'] = ((0, 255),)
                     st.symty['tok2'] = 'u8'
                     elt = Adt(E_ADT, vi, [sval] if sval is not None else [])
-                    st.extra['stack'] = (Adt(E_ADT, 0, []), elt)     # something below it, so that the pop of *this* step is the element
+                    st.extra['stack'] = (Adt(E_ADT, below, []), elt)     # something below it, so that the pop of *this* step is the element
                     toks = [] if c1 is None else [c1]
                     if c1 is not None and c2 is not None:
                         toks.append(c2)
